@@ -22,6 +22,7 @@ type Program struct {
 	Pkgs            map[string]*ssa.Package // by import path
 	errorStringType types.Type              // *errors.errorString
 	LoadSeconds     float64
+	Initial         []*packages.Package // the packages named on the command line (syntax + type info)
 	initRefMu       sync.Mutex
 	initRefCache    map[*ssa.Package]map[*ssa.Global]bool
 }
@@ -94,7 +95,7 @@ func Load(dir string, overlay map[string][]byte, pkgPaths ...string) (*Program, 
 	}
 	prog, _ := ssautil.AllPackages(initial, ssa.InstantiateGenerics)
 	prog.Build()
-	P := &Program{Prog: prog, Fset: prog.Fset, Pkgs: map[string]*ssa.Package{}}
+	P := &Program{Prog: prog, Fset: prog.Fset, Pkgs: map[string]*ssa.Package{}, Initial: initial}
 	for _, p := range prog.AllPackages() {
 		P.Pkgs[p.Pkg.Path()] = p
 	}
